@@ -211,9 +211,10 @@ func genOp(t *rapid.T, c *Case, verts []gen.P, scale float64) Op {
 
 func genCase(mode string) func(t *rapid.T) Case {
 	return func(t *rapid.T) Case {
-		// rapid derives the seed of test i as base+i(i+1)/2 and the driver gives
-		// shard k the base 1+1000*VERIF_SEED+k, so neighbouring shards would repeat
-		// each other's early cases; shard k therefore first discards k draws.
+		// rapid derives the seed of test i as base+i(i+1)/2, so shards whose base
+		// seeds are close repeat each other's early cases (the driver now spaces
+		// the bases far apart; this is kept as a second line of defence): shard k
+		// first discards k draws and rotates the kind table by k.
 		for i := 0; i < shardNo; i++ {
 			rapid.Uint64().Draw(t, "shard-skip")
 		}
